@@ -448,6 +448,15 @@ type c19Env struct {
 	fitgen  string
 	scratch string
 	n       int
+	w       *vx.W
+}
+
+// alive: the command under test must still be where the harness built it; anything else is a harness problem and
+// must never be reported as the command failing.
+func (e *c19Env) alive() {
+	if _, err := os.Stat(e.fitgen); err != nil && e.w != nil {
+		e.w.HarnessError("the fitgen binary built for this run disappeared: %v", err)
+	}
 }
 
 func (e *c19Env) run(input string, sdk string) (string, string, error) {
@@ -456,7 +465,28 @@ func (e *c19Env) run(input string, sdk string) (string, string, error) {
 
 // runOver: like run, but the output directory already holds an earlier, larger output (every generated file of
 // `earlier` followed by leftover text), as it does whenever a user regenerates in place.
+// runRel: like run, but the command is started in the scratch directory and given the output directory as a
+// relative path (`rel`, e.g. "gen", "src/fit" or "."); returns the absolute directory that should hold the output.
+func (e *c19Env) runRel(input string, sdk string, rel string) (string, string, string, error) {
+	e.alive()
+	e.n++
+	cwd := filepath.Join(e.scratch, fmt.Sprintf("cwd%d", e.n))
+	out := filepath.Join(cwd, rel)
+	os.MkdirAll(out, 0o755)
+	args := []string{}
+	if sdk != "" {
+		args = append(args, "-sdk", sdk)
+	}
+	args = append(args, input, rel)
+	cmd := exec.Command(e.fitgen, args...)
+	cmd.Dir = cwd
+	cmd.Env = goEnv()
+	b, err := cmd.CombinedOutput()
+	return out, cwd, string(b), err
+}
+
 func (e *c19Env) runOver(input string, sdk string, earlier string) (string, string, error) {
+	e.alive()
 	e.n++
 	out := filepath.Join(e.scratch, fmt.Sprintf("out%d", e.n))
 	os.MkdirAll(out, 0o755)
@@ -526,7 +556,7 @@ func runC19(w *vx.W) {
 		w.HarnessError("%v", err)
 	}
 	defer os.RemoveAll(scratch)
-	env := &c19Env{fitgen: filepath.Join(scratch, "fitgen"), scratch: scratch}
+	env := &c19Env{fitgen: filepath.Join(scratch, "fitgen"), scratch: scratch, w: w}
 	b := exec.Command("go", "build", "-o", env.fitgen, "./cmd/fitgen")
 	b.Dir = repoRoot
 	b.Env = goEnv()
@@ -685,6 +715,20 @@ func runC19(w *vx.W) {
 				}
 				os.RemoveAll(do)
 				w.Fam("sdk-flag-with-zip", 2)
+			}
+			// the output directory given as a relative path (the command started elsewhere than in the repository)
+			if errx == nil {
+				for _, rel := range []string{"gen", "src/fit", "."} {
+					dr, cwdr, logr, errr := env.runRel(writeTemp(scratch, "stock.xlsx", data), ver, rel)
+					w.Eval(1)
+					w.Fam("relative-output-directory", 1)
+					if errr != nil {
+						w.Violation("fitgen-fails", fmt.Sprintf("workbook %s with the relative output directory %q: fitgen exits with %v: %s", ver, rel, errr, trunc(lastLines(logr, 3), 400)), rep)
+					} else if d := dirsEqual(dr, dx); d != "" {
+						w.Violation("output-depends-on-directory-form", fmt.Sprintf("workbook %s: output in the relative directory %q differs from the output in an absolute one: %s", ver, rel, d), rep)
+					}
+					os.RemoveAll(cwdr)
+				}
 			}
 			os.RemoveAll(dz)
 			os.RemoveAll(dx)
